@@ -153,7 +153,7 @@ fn run_hist(h: &Hist) -> Outcome {
                 v("migrate-moved-coins", format!("balances changed during a migration by {}", who));
             }
             let raw_after = crate::w_migrate::raw_storage(&w.app, &w.splits);
-            let moved: Vec<String> = raw_before
+            let moved: BTreeSet<String> = raw_before
                 .keys()
                 .chain(raw_after.keys())
                 .filter(|k| raw_before.get(*k) != raw_after.get(*k) && k.as_slice() != b"contract_info")
